@@ -296,12 +296,7 @@ func CheckC02(run *Run) {
 	}
 	for i, cr := range results {
 		cr.Apply(vs[i])
-		if cr.Unmodelled != "" && !cr.OracleHolds {
-			cr.Tags = []string{"body-resets-url-fields"} // the only known class; the oracle note must say so
-			if !strings.Contains(cr.OracleNote, "default instead of the URL value") {
-				cr.Tags = nil
-			}
-		}
+		// no known defect class is left for C02: an oracle failure on an unmodelled case is a violation
 		run.Results = append(run.Results, cr)
 	}
 	run.Extra["schemas"] = len(reqs)
